@@ -947,6 +947,18 @@ func (p *context) compileInstrOrValue(b llssa.Builder, iv instrOrValue, asValue 
 		if v.Max != nil {
 			max = p.compileValue(b, v.Max)
 		}
+		switch vx.(type) {
+		case *ssa.Alloc, *ssa.Global:
+			// slicing an array variable: its address is never nil
+		default:
+			if pt, ok := types.Unalias(vx.Type()).Underlying().(*types.Pointer); ok {
+				if _, ok := pt.Elem().Underlying().(*types.Array); ok {
+					// p[lo:hi] is shorthand for (*p)[lo:hi]: a nil p must
+					// panic, and the slice header is built without a load.
+					b.AssertNilDeref(x)
+				}
+			}
+		}
 		ret = b.Slice(x, low, high, max)
 		ret.Type = p.type_(v.Type(), llssa.InGo)
 	case *ssa.MakeInterface:
